@@ -4,9 +4,9 @@ package main
 // closures, function values (callback contracts), defer/recover, go statements.
 
 import (
-	"go/token"
 	"fmt"
 	"go/constant"
+	"go/token"
 	"go/types"
 	"sort"
 	"strings"
@@ -178,7 +178,7 @@ func mapKeyId(e *Enc, kt types.Type, k Val) string {
 	return ""
 }
 
-func mapHasKey(mt types.Type) string       { return "map." + typeKey(mt) + ":has" }
+func mapHasKey(mt types.Type) string        { return "map." + typeKey(mt) + ":has" }
 func mapValKey(mt types.Type, j int) string { return fmt.Sprintf("map.%s:val:%d", typeKey(mt), j) }
 
 func (e *Enc) mapHas(st *State, mt types.Type) string {
